@@ -70,10 +70,39 @@ Proof. exact unrepresentable_expiry_rejected. Qed.
 Print Assumptions C25_unrepresentable_expiry_raises.
 
 Theorem C25_accepted_expiry_is_representable :
-  forall c t, accepted c = true -> c_expires c = Some t -> t <> 0%Z ->
-    (-62135596800 <= t < 253402300800)%Z.
+  forall c, accepted c = true ->
+    match effective_expiry c with
+    | EffNone => True
+    | EffTs t | EffDays t => (-62135596800 <= t < 253402300800)%Z
+    end.
 Proof. exact accepted_expiry_in_range. Qed.
 Print Assumptions C25_accepted_expiry_is_representable.
+
+(* "if both are set, expires is used": an explicit expires is the Expires the user
+   agent reads, whatever expires_days says (also through set_signed_cookie's default
+   expires_days=30); without it expires_days gives now + days; clear_cookie always
+   asks for now - 365 days even when an expires_days keyword is passed. *)
+Theorem C25_explicit_expires_wins :
+  forall c t, accepted c = true -> c_expires c = Some t -> t <> 0%Z ->
+    In (S_expires, Some (format_ts t)) (browser_attrs (output_string c)).
+Proof. exact explicit_expires_wins. Qed.
+Print Assumptions C25_explicit_expires_wins.
+Example C25_explicit_expires_wins_ex :
+  accepted ex_full = true /\ c_expires ex_full = Some 951782400%Z /\ c_expires_days ex_full = Some 30%Z.
+Proof. vm_compute. repeat split; reflexivity. Qed.
+
+Theorem C25_expires_days_used_otherwise :
+  forall c d, accepted c = true ->
+    (c_expires c = None \/ c_expires c = Some 0%Z) -> c_expires_days c = Some d ->
+    exp_text c = Some (format_ts (c_now c + 86400 * d)).
+Proof. exact expires_days_used. Qed.
+Print Assumptions C25_expires_days_used_otherwise.
+
+Theorem C25_clear_cookie_expiry_is_in_the_past :
+  forall c, c_now c <> 31536000%Z ->
+    exp_text (lower (OpClear c)) = Some (format_ts (c_now c - 31536000)).
+Proof. exact clear_cookie_expiry. Qed.
+Print Assumptions C25_clear_cookie_expiry_is_in_the_past.
 
 (* The Max-Age text is the decimal numeral of the requested integer. *)
 Theorem C25_max_age_text_denotes_the_number :
